@@ -336,6 +336,10 @@ pub fn argsweep_scenario(spec: &SoloSpec, k: u64) -> Scenario {
     let Some(mut script) = prefix_script(p, pi) else {
         return Scenario::solo(c, Entropy::Bytes(vec![b]));
     };
+    // protocols >= 4: the first script byte is the framing decision; both variants in turn
+    if p >= 4 && !script.is_empty() && k % 2 == 1 {
+        script[0] = 1;
+    }
     let at = script.len();
     script.push(b);
     script.extend_from_slice(&lead);
@@ -422,7 +426,254 @@ pub fn table_scenario(_spec: &SoloSpec, k: u64) -> Scenario {
     };
     script[at] = (v >> 8) as u8;
     script[at + 1] = (v & 0xff) as u8;
+    if p >= 4 && v % 2 == 1 {
+        script[0] = 1; // framed variant
+    }
     let mut sc = Scenario::solo(c, Entropy::Bytes(script));
     sc.faults.push(Fault { kind: "table", at, detail: format!("steered program {:?} with GLOBAL's table draw bytes set to {:04x}", ops, v) });
     sc
+}
+
+// ------------------------------------------------------------------------------------------
+// table entries x consumer x next opcode
+
+/// upper bound on the number of distinct GLOBAL table entries (the shipped table has 19 061)
+const TABLE_BOUND: usize = 20_000;
+const NEXT_PROGRAMS: [usize; 3] = [0, 3, 1]; // GLOBAL () REDUCE | GLOBAL () NEWOBJ | GLOBAL None TUPLE1 REDUCE
+
+/// one two-byte draw value per distinct table entry of protocol `p` (first value that selects it),
+/// measured by emitting GLOBAL once for each of the 65 536 values
+fn table_entries(p: u8) -> &'static Vec<u16> {
+    static CACHE: OnceLock<Mutex<HashMap<u8, &'static Vec<u16>>>> = OnceLock::new();
+    let cache = CACHE.get_or_init(|| Mutex::new(HashMap::new()));
+    if let Some(v) = cache.lock().unwrap().get(&p) {
+        return v;
+    }
+    let mut out: Vec<u16> = vec![];
+    if let Some((script, at)) = table_script(p, 0) {
+        let mut seen: std::collections::HashSet<Vec<u8>> = std::collections::HashSet::new();
+        let c = engine::tree_config(p, 1);
+        for v in 0..=65_535u16 {
+            let mut s = script[..(at + 2).min(script.len())].to_vec();
+            if s.len() < at + 2 {
+                break;
+            }
+            s[at] = (v >> 8) as u8;
+            s[at + 1] = (v & 0xff) as u8;
+            s.extend_from_slice(&[0u8; 8]);
+            let sc = Scenario::solo(c.clone(), Entropy::Bytes(s));
+            let recs = exec::run_scenario(&sc, Trace::Off, false);
+            let Some(o) = recs.first().and_then(|r| r.outcome.bytes()) else { continue };
+            // the text argument of the first GLOBAL in the output
+            if let Some(i) = o.iter().position(|b| *b == b'c') {
+                let mut nl = 0;
+                let key: Vec<u8> = o[i + 1..]
+                    .iter()
+                    .copied()
+                    .take(400)
+                    .take_while(|b| {
+                        if *b == b'\n' {
+                            nl += 1;
+                        }
+                        nl < 2
+                    })
+                    .collect();
+                if seen.insert(key) {
+                    out.push(v);
+                }
+            }
+        }
+    }
+    let leaked: &'static Vec<u16> = Box::leak(Box::new(out));
+    cache.lock().unwrap().insert(p, leaked);
+    leaked
+}
+
+pub struct ExploreOutcome {
+    pub found: Vec<engine::Found>,
+    pub runs: u64,
+    pub entries: usize,
+    pub menus: usize,
+    pub anomalous_entries: usize,
+    pub deep_runs: u64,
+}
+
+/// Anomaly-directed exploration of the GLOBAL table (C01 / C03 / C17): every table entry is put
+/// into three consumer programs and followed by every next choice byte 0..63; each run is judged by
+/// the property's oracle and the *menu* (which opcode each choice byte selected) is recorded. The
+/// menu after a program depends only on the kinds on the simulated stack, so it is the same for
+/// every entry - unless the generator models some callable specially. The entry's signature is the
+/// menu plus the simulated stack (depth and top kinds, from the K2 snapshot) the program left behind. Entries whose menu differs
+/// from the modal one are then explored two further choices deep (three for the first few), every
+/// run judged. The model-free signal only directs the search; verdicts come from the oracle.
+pub fn table_explore(prop: &'static str, known: &[engine::KnownFinding], stats: &mut engine::Stats) -> ExploreOutcome {
+    let spec = engine::solo_spec(prop).expect("solo property");
+    let nt = engine::n_threads();
+    let mut out = ExploreOutcome { found: vec![], runs: 0, entries: 0, menus: 0, anomalous_entries: 0, deep_runs: 0 };
+    for &gi in NEXT_PROGRAMS.iter() {
+        let ops = TABLE_PROGRAMS[gi];
+        let len = ops.len();
+        for p in [2u8, 4] {
+            let entries = table_entries(p);
+            let Some((base, at)) = table_script(p, gi) else { continue };
+            out.entries = out.entries.max(entries.len());
+            // level 1: (entry, t) for the entries of this protocol's half
+            let half: Vec<(usize, u16)> = entries.iter().copied().enumerate().filter(|(e, _)| (e % 2 == 0) == (p == 4)).collect();
+            let parts: Vec<(Vec<(usize, Vec<u8>)>, Vec<engine::Found>, engine::Stats, u64)> = std::thread::scope(|s| {
+                let half = &half;
+                let base = &base;
+                let spec = &spec;
+                (0..nt)
+                    .map(|t| {
+                        s.spawn(move || {
+                            let mut menus = vec![];
+                            let mut found = vec![];
+                            let mut st = engine::Stats::default();
+                            let mut runs = 0u64;
+                            let mut i = t;
+                            while i < half.len() {
+                                let (e, v) = half[i];
+                                let mut script = base.clone();
+                                script[at] = (v >> 8) as u8;
+                                script[at + 1] = (v & 0xff) as u8;
+                                let mut menu = vec![0u8; 64];
+                                for b in 0..64u8 {
+                                    let mut s2 = script.clone();
+                                    s2.push(b);
+                                    // the first run of an entry is traced in full: the simulated stack
+                                    // kinds the program left behind are part of the entry's signature
+                                    let tr = if b == 0 { Trace::Full } else { spec.trace };
+                                    let (mut sc, recs, body, _) = engine::tree_probe_with(p, &s2, len + 1, tr);
+                                    runs += 1;
+                                    menu[b as usize] = body.get(len).copied().unwrap_or(0);
+                                    if b == 0 {
+                                        if let Some(r) = recs.first() {
+                                            let mut in_body = false;
+                                            let mut k = 0usize;
+                                            for ev in &r.events {
+                                                match ev {
+                                                    Event::Phase { phase: Phase::Target, .. } => in_body = true,
+                                                    Event::Phase { phase: Phase::BodyDone, .. } => in_body = false,
+                                                    Event::Op { depth, kinds, .. } if in_body => {
+                                                        if k == len {
+                                                            menu.push(0xfe);
+                                                            menu.push(*depth as u8);
+                                                            if let Some(ks) = kinds {
+                                                                menu.extend(ks.iter().rev().take(6));
+                                                            }
+                                                        }
+                                                        k += 1;
+                                                    }
+                                                    _ => {}
+                                                }
+                                            }
+                                        }
+                                    }
+                                    for v in engine::evaluate_any(prop, &sc, &recs, &mut st) {
+                                        if engine::known_match(known, &v).is_none() && found.len() < 4 {
+                                            sc.faults.push(Fault { kind: "table", at, detail: format!("program {:?} with table entry #{}, then choice byte 0x{:02x}", ops, e, b) });
+                                            found.push(engine::Found { index: e as u64, scenario: sc.clone(), violation: v });
+                                        }
+                                    }
+                                }
+                                menus.push((e, menu));
+                                i += nt;
+                            }
+                            (menus, found, st, runs)
+                        })
+                    })
+                    .collect::<Vec<_>>()
+                    .into_iter()
+                    .map(|h| h.join().unwrap())
+                    .collect()
+            });
+            let mut menus: Vec<(usize, Vec<u8>)> = vec![];
+            for (m, f, mut st, r) in parts {
+                menus.extend(m);
+                out.found.extend(f);
+                out.runs += r;
+                st.evaluations = 0;
+                stats.merge(st);
+            }
+            menus.sort();
+            // modal menu
+            let mut count: HashMap<&Vec<u8>, usize> = HashMap::new();
+            for (_, m) in &menus {
+                *count.entry(m).or_insert(0) += 1;
+            }
+            out.menus = out.menus.max(count.len());
+            let Some((modal, _)) = count.iter().max_by(|a, b| a.1.cmp(b.1).then(b.0.cmp(a.0))).map(|(m, c)| ((*m).clone(), *c)) else { continue };
+            let anomalous: Vec<usize> = menus.iter().filter(|(_, m)| *m != modal).map(|(e, _)| *e).take(48).collect();
+            out.anomalous_entries += anomalous.len();
+            // level 2 (and 3 for the first four): every further choice, with the bytes each choice consumed
+            for (ai, &e) in anomalous.iter().enumerate() {
+                let v = entries[e];
+                let mut script = base.clone();
+                script[at] = (v >> 8) as u8;
+                script[at + 1] = (v & 0xff) as u8;
+                let depth_extra = if ai < 4 { 3 } else { 2 };
+                let mut frontier: Vec<Vec<u8>> = vec![script];
+                for d in 0..depth_extra {
+                    let mut next: Vec<Vec<u8>> = vec![];
+                    let results: Vec<(Vec<Vec<u8>>, Vec<engine::Found>, engine::Stats, u64)> = std::thread::scope(|s| {
+                        let frontier = &frontier;
+                        let spec = &spec;
+                        (0..nt)
+                            .map(|t| {
+                                s.spawn(move || {
+                                    let mut nx = vec![];
+                                    let mut found = vec![];
+                                    let mut st = engine::Stats::default();
+                                    let mut runs = 0u64;
+                                    let mut i = t;
+                                    while i < frontier.len() {
+                                        for b in 0..64u8 {
+                                            let mut s2 = frontier[i].clone();
+                                            s2.push(b);
+                                            let (mut sc, recs, body, consumed) = engine::tree_probe_with(p, &s2, len + 1 + d, spec.trace);
+                                            runs += 1;
+                                            if body.len() == len + 1 + d {
+                                                if consumed > s2.len() {
+                                                    s2.resize(consumed, 0);
+                                                }
+                                                nx.push(s2);
+                                            }
+                                            for v in engine::evaluate_any(prop, &sc, &recs, &mut st) {
+                                                if engine::known_match(known, &v).is_none() && found.len() < 4 {
+                                                    sc.faults.push(Fault { kind: "table", at, detail: format!("program {:?} with table entry #{} (its menu of next opcodes differs from the other entries'), explored {} choices deep", ops, e, d + 1) });
+                                                    found.push(engine::Found { index: e as u64, scenario: sc.clone(), violation: v });
+                                                }
+                                            }
+                                        }
+                                        i += nt;
+                                    }
+                                    (nx, found, st, runs)
+                                })
+                            })
+                            .collect::<Vec<_>>()
+                            .into_iter()
+                            .map(|h| h.join().unwrap())
+                            .collect()
+                    });
+                    for (nx, f, mut st, r) in results {
+                        next.extend(nx);
+                        out.found.extend(f);
+                        out.deep_runs += r;
+                        st.evaluations = 0;
+                        stats.merge(st);
+                    }
+                    next.sort();
+                    frontier = next;
+                    if !out.found.is_empty() {
+                        break;
+                    }
+                }
+                if !out.found.is_empty() {
+                    break;
+                }
+            }
+        }
+    }
+    out.found.sort_by_key(|f| f.index);
+    out
 }
